@@ -8,6 +8,7 @@ import (
 	"path/filepath"
 	"sort"
 	"strings"
+	"time"
 
 	"github.com/osteele/liquid"
 	yaml "gopkg.in/yaml.v2"
@@ -20,10 +21,10 @@ func init() {
 	core.Register(&core.Prop{
 		ID:    "C02",
 		Level: "exploration",
-		Rule: "generated templates biased to what consumes maps (for/tablerow over maps of 2..12 entries with offset/limit/reversed, map-to-array filters first/last/join/sort/map/reverse/uniq/size/concat/compact, printing of maps, IterationKeyedMap, yaml.MapSlice, nested maps, maps inside Drops) plus general generated programs; for every case ALL of these must give byte-identical output (or the same error text, line and path): 30 renders of one parsed template, 10 fresh parses, 5 fresh engines, the six entry points Render / RenderString / FRender / ParseAndRender / ParseAndRenderString / ParseAndFRender, 6 rebuilds of the binding maps in PRNG-permuted insertion order with different capacities, and a fresh child process re-rendering every case of the shard; plus the cmd/liquid binary (stdin and FILE argument, --env under env -i, with and without --strict) against the library. Non-trivial = the template consumes a map with >= 2 entries; distinct = distinct (template, logical bindings).",
+		Rule: "generated templates biased to what consumes maps (for/tablerow over maps of 2..12 entries with offset/limit/reversed, map-to-array filters first/last/join/sort/map/reverse/uniq/size/concat/compact, printing of maps, IterationKeyedMap, yaml.MapSlice, nested maps, maps inside Drops) plus general generated programs; for every case ALL of these must give byte-identical output (or the same error text, line and path): 30 renders of one parsed template, 10 fresh parses, 5 fresh engines, the six entry points Render / RenderString / FRender / ParseAndRender / ParseAndRenderString / ParseAndFRender, 6 rebuilds of the binding maps in PRNG-permuted insertion order with different capacities, and a fresh child process re-rendering every case of the shard; plus a date family: date strings written in 16 layouts x 9 zone spellings, each rendered through the date filter and through comparisons after different histories of other date strings (what was parsed earlier in the process must not matter); plus the cmd/liquid binary (stdin and FILE argument, --env under env -i, with and without --strict) against the library. Non-trivial = the template consumes a map with >= 2 entries; distinct = distinct (template, logical bindings).",
 		Exhaustive: func(string) bool { return false },
 		Assumptions: []string{
-			"templates never use date/now; children run with TZ=UTC (the property exempts clock and time zone)",
+			"the map/program templates never use date/now and children run with TZ=UTC (the property exempts clock and time zone); the date family parses fixed date strings (never now) and is compared within one process only, where the time zone is one",
 			"which order maps iterate in is not asserted, only that it is one order",
 			"rebuilds keep the Go representation and change only construction order and capacity; text that spells Go values holding pointers (error messages, json/inspect) can contain addresses and is not covered",
 		},
@@ -248,6 +249,7 @@ func runC02(c *core.Ctx) {
 		os.WriteFile(filepath.Join(c.WorkDir, fmt.Sprintf("c02-child-%02d.digest", c.Shard)), digest.Bytes(), 0o644)
 		return
 	}
+	c02Dates(c)
 	// ---- fresh child process: every case of this shard again --------------------------------------
 	for gen := 0; gen < 2; gen++ {
 		sub := filepath.Join(c.WorkDir, fmt.Sprintf("c02-sub-%02d-%d", c.Shard, gen))
@@ -361,6 +363,67 @@ func c02CLI(c *core.Ctx) {
 		if !ok {
 			c.Violate("cli|"+resClass(lib), "the command-line tool and the library disagree (stdout must equal the library output; exit status 0 iff no error)",
 				map[string]any{"source": src, "args": args, "via_file": viaFile, "env": envs, "library": lib.Brief(), "cli_stdout": core.Trunc(stdout.String(), 300), "cli_error": fmt.Sprint(err), "cli_stderr": core.Trunc(stderr.String(), 300)})
+		}
+	}
+}
+
+// c02Dates: the text a date string renders to must not depend on which other date strings the process
+// parsed before it (fresh engines and fresh parses share every process-wide table and cache).
+func c02Dates(c *core.Ctx) {
+	layouts := []string{time.ANSIC, time.UnixDate, time.RubyDate, time.RFC822, time.RFC822Z, time.RFC850, time.RFC1123, time.RFC1123Z, time.RFC3339, "2006-01-02", "2006-01-02 15:04:05",
+		"2006-01-02 15:04:05 -0700", "2006-01-02 15:04:05 MST", "Jan 2 2006", "January 2, 2006", "2 Jan 2006", "02 Jan 06 15:04 -0700", "Mon, 02 Jan 2006 15:04:05 -0700", "Mon Jan 2 15:04:05 -0700 2006", "Mon Jan _2 15:04:05 MST 2006"}
+	zones := []*time.Location{time.UTC, time.FixedZone("MST", -7*3600), time.FixedZone("GMT", 0), time.FixedZone("+0015", 15*60), time.FixedZone("+0010", 10*60), time.FixedZone("", 15*60), time.FixedZone("", 0),
+		time.FixedZone("", -7*3600), time.FixedZone("", 5*3600+1800), time.FixedZone("+0000", 0), time.FixedZone("+0023", 23*60)}
+	mk := func(r *core.Rand) string {
+		t := time.Date(2000+r.Intn(30), time.Month(1+r.Intn(12)), 1+r.Intn(28), r.Intn(24), r.Intn(60), r.Intn(60), 0, zones[r.Intn(len(zones))])
+		return t.Format(layouts[r.Intn(len(layouts))])
+	}
+	tpls := []string{"{{ d | date: '%Y-%m-%d %H:%M:%S %z %Z' }}", "{{ d | date: '%s' }}|{{ d | date: '%a, %d %b %Y %T %z' }}", "{% assign x = d | date: '%H:%M %z' %}[{{ x }}]{{ d | date: '%j %U %Z' }}"}
+	n := c.Pick(6000, 120000)
+	for i := 0; i < n; i++ {
+		if !c.Mine(i) {
+			continue
+		}
+		r := c.Rand(i, 0xDA7E)
+		d := mk(r)
+		src := tpls[r.Intn(len(tpls))]
+		if !c.Begin(fmt.Sprintf("date-history: %s d=%q", src, d)) {
+			continue
+		}
+		e := liquid.NewEngine()
+		results := map[string]string{}
+		var first core.Res
+		for h := 0; h < 4; h++ {
+			// history h: 0..3 other date strings parsed first (on another engine: the state in question is process-wide)
+			var hist []string
+			for k := r.Intn(4); k > 0 && h > 0; k-- {
+				o := mk(r)
+				hist = append(hist, o)
+				core.Run(liquid.NewEngine(), "{{ d | date: '%Y' }}", map[string]any{"d": o})
+			}
+			res := core.Run(e, src, map[string]any{"d": d})
+			if h == 0 {
+				first = res
+			}
+			if _, ok := results[res.Brief()]; !ok {
+				results[res.Brief()] = fmt.Sprintf("after parsing %q", hist)
+			}
+		}
+		c.Eval(4)
+		c.Obs("date_history_cases", 1)
+		c.Obs("executions_compared", 4)
+		c.Distinct("date", src, d)
+		if len(results) > 1 || first.Panic != "" {
+			var ds []string
+			for k, how := range results {
+				ds = append(ds, how+" => "+core.Trunc(k, 200))
+			}
+			sort.Strings(ds)
+			c.Violate("nondeterministic|date-history", "the same template and date string rendered differently depending on which date strings had been parsed earlier in the process",
+				map[string]any{"source": src, "d": d, "results": ds})
+		}
+		if i%2003 == 1 {
+			c.Sample(map[string]any{"source": src, "d": d, "result": first.Brief()})
 		}
 	}
 }
